@@ -633,6 +633,12 @@ impl<W: Write + io::Seek> ZipWriter<W> {
         let file = self.files.last_mut().unwrap();
 
         validate_extra_data(file)?;
+        if file.extra_field.len() + if file.large_file { 20 } else { 0 } > spec::ZIP64_ENTRY_THR {
+            return Err(ZipError::Io(io::Error::new(
+                io::ErrorKind::InvalidData,
+                "Extra data exceeds extra field",
+            )));
+        }
 
         let data_start = file.data_start.get_mut();
 
@@ -1200,7 +1206,10 @@ fn write_central_directory_header<T: Write>(writer: &mut T, file: &ZipFileData) 
     // file name length
     writer.write_u16::<LittleEndian>(file.file_name.as_bytes().len() as u16)?;
     // extra field length
-    writer.write_u16::<LittleEndian>(zip64_extra_field_length + file.extra_field.len() as u16)?;
+    let extra_field_length: u16 = (zip64_extra_field_length as usize + file.extra_field.len())
+        .try_into()
+        .map_err(|_| ZipError::InvalidArchive("Extra data exceeds extra field"))?;
+    writer.write_u16::<LittleEndian>(extra_field_length)?;
     // file comment length
     writer.write_u16::<LittleEndian>(0)?;
     // disk number start
